@@ -174,6 +174,9 @@ def check_taint(c, f):
                 bad = 'raw undecoded bytes can reach %s (a multi-byte character cut by a read boundary is corrupted, ' \
                       'and text-mode callers get bytes)' % what
             elif 'chunk-decoded' in labs:
+                if decoder_state_guarded(f):
+                    raise AnalysisError('%s: bytes are decoded per chunk on a path guarded by a test of the decoder\'s own state (getstate()): whether that '
+                                        'equals incremental decoding cannot be decided' % f.qual)
                 bad = '%s was decoded per chunk with bytes.decode(), not with the persistent incremental decoder' % what
             elif 'double-decoded' in labs:
                 bad = '%s went through the decoder twice' % what
